@@ -794,8 +794,6 @@ impl Overlay {
 
         let _write_guard = nomt.access_lock.write();
 
-        let marker = self.mark_committed();
-
         {
             let mut shared = nomt.shared.lock();
             if shared.root != self.prev_root() {
@@ -805,6 +803,8 @@ impl Overlay {
                     shared.root
                 );
             }
+            // Only mark the overlay as committed once the commit can no longer be rejected.
+            let marker = self.mark_committed();
             shared.root = root;
             shared.last_commit_marker = Some(marker);
         }
@@ -852,8 +852,6 @@ impl Overlay {
             return Ok(Some(self));
         }
 
-        let marker = self.mark_committed();
-
         {
             let mut shared = nomt.shared.lock();
             if shared.root != self.prev_root() {
@@ -863,6 +861,8 @@ impl Overlay {
                     shared.root
                 );
             }
+            // Only mark the overlay as committed once the commit can no longer be rejected.
+            let marker = self.mark_committed();
             shared.root = root;
             shared.last_commit_marker = Some(marker);
         }
